@@ -1148,19 +1148,29 @@ def build_probes(M, seed):
     probes = []
     T0 = M.T0
 
-    def mk(label, **settings):
+    M.probe_fail = []
+
+    def mk(label, vclass="inside", **settings):
         kw = dict(settings)
         if M.has_salt and not M.cisco7:
             size = M.root.get("ssize") or M.mx_s or M.mn_s or 8
             kw["salt"] = pinned_salt(M, size, seed, 9)
         try:
             with env.scripted_rng(PinRng("lo", 7)):
-                h = T0.genconfig(**kw)
+                # documented GenericHandler constructor (what from_string()/hash() call); no using() involved
+                obj = T0(use_defaults=True, **kw)
+                obj.checksum = obj._stub_checksum
+                h = obj.to_string()
             if M.wrapper:
                 h = M.G._wrap_hash(h)
             info = parse_made(M, h)
+        except core.HarnessError:
+            raise
         except Exception as e:  # noqa: BLE001
-            raise core.HarnessError(f"cannot build needs_update probe {label} for {M.name}: {e!r}") from None
+            # the unconfigured hasher cannot represent a hash with settings inside its documented limits:
+            # reported by the root check (a broken hard limit), the probe is left out
+            M.probe_fail.append((label, vclass, type(e).__name__, core.short(e, 120)))
+            return
         info.pop("salt", None)
         info["label"] = label
         info["hash"] = h
@@ -1177,7 +1187,7 @@ def build_probes(M, seed):
         if M.is_scrypt:
             extra = {"block_size": 8, "parallelism": 1}
         for r in vals:
-            mk(f"rounds={r}", rounds=r, **extra)
+            mk(f"rounds={r}", "at_hard_max" if r == M.mx else "at_hard_min" if r == M.mn else "inside", rounds=r, **extra)
         r = V["in2"]
         if M.is_scrypt:
             for bs, p in ((1, 1), (2, 1), (8, 2), (1, 2)):
@@ -1485,6 +1495,10 @@ def full_check(W, prefix, aspect0, target, newidx, depth, real_for=None, hard_on
         for asp, cls, desc in compare(W, nd, s):
             out.append((key(nd.M if nd.role == "wrapped" else M, asp, f"isolation:{nd.role}:{cls}"),
                         f"{M.name}: the {nd.role} observer changed: {desc}"))
+    if prefix == "root:":
+        for label, vclass, en, detail in getattr(M, "probe_fail", ()):
+            out.append((key(M, "rounds", f"root:hash_within_hard_limits_refused:{vclass}:{en}"),
+                        f"{M.name}: the unconfigured hasher cannot build / parse a hash with {label} although it lies inside the documented hard limits: {detail}"))
     # raw class dictionaries
     for h, attr, how in raw_diff(M.pristine):
         out.append((key(M, raw_aspect(attr), f"isolation:global:raw:{attr}"),
